@@ -1,6 +1,7 @@
 import N0Verif.Proofs.XPathLeaves
 import N0Verif.Proofs.XPathListRoot
 import N0Verif.Proofs.XPathSpellings
+import N0Verif.Proofs.XPathPrimGenEq
 /-!
 # C01 — every enumerated xpath resolves to exactly the leaf it names
 
@@ -392,5 +393,52 @@ example : (getItem 20 exTree (renderSp .one [.key ['a'], .key ['b'], .idx (.lit 
   decide
 example : (XPath.get 20 exList (renderSp .rel [.idx (.lit 1) false, .idx (.neg 3) false]) (.str ['D'])) = (exList, .ok (.str ['D'])) := by
   decide
+
+/-! ## BEGIN generated-primitives block (translator tie for `n0eval` and `split_name_index`)
+
+`harness/translate_py_xp.py` re-translates the Python text of the two pure primitives every lookup goes through
+into `Gen/XPathPrim.lean` on every run of `./check C01`; the theorems below are re-checked against the regenerated
+text (proofs: `Proofs/XPathPrimGenEq.lean`).  They hold for *every* string, exception classes included
+(`Unsupported` marks the inputs outside the modelled scope on both sides: float texts, non-ASCII digits, '%' inside
+a quoted value).  See notes/C01-gen.md. -/
+
+/-- **translated `n0eval` = model**, for every string -/
+theorem C01_generated_n0eval_eq (s : Str) : Gen.XPathPrim.n0eval s = XPath.n0eval s :=
+  XPathPrimGenEq.xpgen_n0eval_eq s
+
+/-- **translated `split_name_index` = model**, for every string (name, `[index]`, conditions with the operator
+table, quotes, `contains(text(), …)`, `true()`/`false()`; `ValueError`/`IndexError`/`SyntaxError` included) -/
+theorem C01_generated_split_eq (s : Str) : Gen.XPathPrim.splitNameIndex s = XPath.splitNameIndex s :=
+  XPathPrimGenEq.xpgen_split_eq s
+
+/-- the index spellings of the property, evaluated by the translated `n0eval` -/
+theorem C01_idx_spelling_eval_generated (e : IdxSp) : Gen.XPathPrim.n0eval e.text = .ok (.int e.val) := by
+  rw [C01_generated_n0eval_eq]; exact e.eval
+
+/-- a rendered step `k[e]` (plain or empty name, index expression) is split by the translated `split_name_index`
+into exactly its name and its index text -/
+theorem C01_step_split_generated (k e : Str) (hk : k = [] ∨ PlainKey k) (he : IdxExpr e) :
+    Gen.XPathPrim.splitNameIndex (k ++ bracket e) = .ok (k, .str e) := by
+  rw [C01_generated_split_eq]; exact split_bracket k e hk he
+
+/-! Non-vacuity: the translated definitions compute, on every branch (they are separate definitions: a nested
+function, two folds, a loop with `break`/`else`). -/
+example : Gen.XPathPrim.n0eval [' ', 'L', 'a', 's', 't', '(', ')', ' ', '-', ' ', '1', '_', '0', '+', '2'] = .ok (.int (-9)) := by decide
+example : Gen.XPathPrim.n0eval ['1', '+', 'n', 'e', 'w', '(', ')'] = .ok (.str ['1', '+', 'n', 'e', 'w', '(', ')']) := by decide
+example : Gen.XPathPrim.n0eval ['1', '.', '5'] = .error .Unsupported ∧ Gen.XPathPrim.n0eval ['1', '.', 'x'] = .ok (.str ['1', '.', 'x'])
+    ∧ Gen.XPathPrim.n0eval [] = .ok (.str []) ∧ Gen.XPathPrim.n0eval ['-', '-', '1'] = .ok (.int (-1)) ∧ Gen.XPathPrim.n0eval ['1', '-', 'x'] = .ok (.str ['1', '-', 'x']) := by decide
+example : Gen.XPathPrim.splitNameIndex ['a', ' ', '[', ' ', 'k', ' ', '=', ' ', '\'', 'v', '\'', ']']
+    = .ok (['a'], .cond ['k'] ['=', '='] (.str ['v'])) := by decide
+example : Gen.XPathPrim.splitNameIndex ['[', 'k', '!', '~', 'T', 'r', 'u', 'e', '(', ')', ']']
+    = .ok ([], .cond ['k'] ['!', '~'] (.bool true)) := by decide
+example : Gen.XPathPrim.splitNameIndex ['[', 'c', 'o', 'n', 't', 'a', 'i', 'n', 's', '(', 't', 'e', 'x', 't', '(', ')', ',', 'v', ')', ']']
+    = .ok ([], .cond ['t', 'e', 'x', 't', '(', ')'] ['~', '~'] (.str ['v'])) := by decide
+example : Gen.XPathPrim.splitNameIndex ['[', 'c', 'o', 'n', 't', 'a', 'i', 'n', 's', ')', ']'] = .error .IndexError
+    ∧ Gen.XPathPrim.splitNameIndex ['[', 'c', 'o', 'n', 't', 'a', 'i', 'n', 's', '(', ')', ']'] = .error .ValueError
+    ∧ Gen.XPathPrim.splitNameIndex ['a', '[', ']'] = .ok (['a'], .str [])
+    ∧ Gen.XPathPrim.splitNameIndex ['a', ']'] = .ok (['a', ']'], .none)
+    ∧ Gen.XPathPrim.splitNameIndex ['[', '"', '%', '"', '=', '"', '%', '"', ']'] = .error .Unsupported := by decide
+
+/-! ## END generated-primitives block -/
 
 end N0.C01
